@@ -159,6 +159,14 @@ VERUS_UNITS = {
             ('idx != 0) ==> (final(world).queue().commands@ == w0.queue().commands@.push(', 'idx != 0) ==> (final(world).queue().commands@ == w0.queue().commands@.drop_last().push(', 'syscommand_runner'),
         ],
     },
+    'dispatch': {
+        'template': 'dispatch.rs.tpl',
+        'owners': [(r'schedule_entity_reaction_impl$', ['C01', 'C14']), (r'ReactCache::schedule_(insertion|mutation)_reaction$', ['C01', 'C14'])],
+        'negctl': [
+            ('wide_cmds(m[type_id_spec::<C>()].mutation_callbacks@, e, rt)', 'wide_cmds(m[type_id_spec::<C>()].insertion_callbacks@, e, rt)', 'ReactCache::schedule_mutation_reaction'),
+            ('final(commands).log() == (if !inserted.matched().contains(e) { old(commands).log() }', 'final(commands).log() == (if inserted.matched().contains(e) { old(commands).log() }', 'ReactCache::schedule_insertion_reaction'),
+        ],
+    },
     'lemmas': {
         'template': 'lemmas.rs.tpl',
         'owners': [
@@ -207,7 +215,7 @@ ENVNOTE = 'Kani tier runs the real crate against the assumed Bevy of /verif/env 
 
 PROPS = {
     'C01': dict(category='other', design_ref='DESIGN.md 5/C01',
-        text='Registration tables as abstract maps key -> list: Verus proves on the verbatim text, for tables and lists of ANY size, that each of the 7 ReactCache::register_* functions appends exactly one handle to exactly the list named by (kind, key) and leaves every other list of every table unchanged, and that schedule_resource_mutation_reaction / schedule_broadcast_reaction queue exactly one command per entry of the trigger type\'s list, in order, with the right reactor id (and nothing for an empty list). Kani discharges on the real code, for bounded shapes, the functions outside Verus\' subset: EntityReactors::{insert,remove,count,iter_rtype,iter_reactors} (lists L<=3, all contents), ReactCache::revoke_* (neighbours keep their entries), schedule_{entity_event,insertion,mutation}_reaction (entity-scoped + type-wide listeners, wrong-kind / wrong-type entries present and not fired). Lemma L3 (Verus) lifts register/revoke contracts to arbitrary histories on one key. Level other: the schedule_* functions with Query access are bounded stand-ins; that Bevy applies the scheduling command in-line is runner/queue semantics (C02/C09, not applicable).',
+        text='Registration tables as abstract maps key -> list: Verus proves on the verbatim text, for tables and lists of ANY size, that each of the 7 ReactCache::register_* functions appends exactly one handle to exactly the list named by (kind, key) and leaves every other list of every table unchanged, and that schedule_resource_mutation_reaction / schedule_broadcast_reaction queue exactly one command per entry of the trigger type\'s list, in order, with the right reactor id (and nothing for an empty list). schedule_insertion_reaction / schedule_mutation_reaction / schedule_entity_reaction_impl are likewise proved for per-entity and type-wide lists of any length (Verus, verbatim, against an assumed sequence stand-in for Vec and the assumed contract of EntityReactors::iter_rtype). Kani discharges on the real code, for bounded shapes, the functions outside Verus\' subset: EntityReactors::{insert,remove,count,iter_rtype,iter_reactors} (lists L<=3, all contents), ReactCache::revoke_* (neighbours keep their entries), schedule_entity_event_reaction, and restates schedule_{insertion,mutation}_reaction on the compiled code (entity-scoped + type-wide listeners, wrong-kind / wrong-type entries present and not fired). Lemma L3 (Verus) lifts register/revoke contracts to arbitrary histories on one key. Level other: the schedule_* functions with Query access are bounded stand-ins; that Bevy applies the scheduling command in-line is runner/queue semantics (C02/C09, not applicable).',
         note=ENVNOTE + '; maps = finite partial maps (hashing not modelled); ReactionTrigger::register per trigger type and syscommand_runner not under contract',
         explanation='register_* x7 + 2 type-wide schedule fns proved unbounded (Verus, verbatim); entity-scoped dispatch, EntityReactors and revoke_* bounded (Kani); history lemma L3'),
     'C03': dict(category='other', design_ref='DESIGN.md 5/C03',
@@ -247,7 +255,7 @@ PROPS = {
         note=ENVNOTE + '; stub System = assumed contract of bevy System; Box<dyn FnMut> callbacks are opaque values in the Verus unit',
         explanation='storage take/insert proved (Verus); one initialisation and instance identity over bounded run sequences (Kani); runner not covered'),
     'C14': dict(category='other', design_ref='DESIGN.md 5/C14',
-        text='Verus proves on the verbatim text, generically in the component / resource type: React::{get,get_noreact,take} and ReactResInner::{get_noreact,take} queue nothing; get_mut queues exactly one trigger (for the owning entity); set_if_neq(new) stores, returns the old value and queues one trigger iff new != old by the type\'s PartialEq, and otherwise changes and queues nothing. Kani, loop-free over the full u32 value domain on the real accessors against the stub Commands (counting queued commands): React::{get,get_noreact} and the ReactResMut read paths queue nothing; React::get_mut / ReactResMut::get_mut queue exactly one trigger command per call; set_if_neq(new): new == old => None, value unchanged, nothing queued; new != old => Some(old), value stored, exactly one trigger. The trigger itself: schedule_mutation_reaction / schedule_insertion_reaction queue exactly one command per matching registration for THIS entity and component type (bounded shapes), and schedule_insertion_reaction queues nothing for an entity that does not carry the component (despawned before apply). Level other: value-level clauses are complete per instantiation; ReactiveMut (query-level wrappers) and ReactCommands::insert\'s command pair are not discharged (CBMC cost).',
+        text='Verus proves on the verbatim text, generically in the component / resource type: React::{get,get_noreact,take} and ReactResInner::{get_noreact,take} queue nothing; get_mut queues exactly one trigger (for the owning entity); set_if_neq(new) stores, returns the old value and queues one trigger iff new != old by the type\'s PartialEq, and otherwise changes and queues nothing. Kani, loop-free over the full u32 value domain on the real accessors against the stub Commands (counting queued commands): React::{get,get_noreact} and the ReactResMut read paths queue nothing; React::get_mut / ReactResMut::get_mut queue exactly one trigger command per call; set_if_neq(new): new == old => None, value unchanged, nothing queued; new != old => Some(old), value stored, exactly one trigger. The trigger itself: schedule_mutation_reaction / schedule_insertion_reaction queue exactly one command per matching registration for THIS entity and component type (Verus, verbatim, lists of any length; Kani restates it on the compiled code for bounded shapes), and schedule_insertion_reaction queues nothing for an entity that does not carry the component (despawned before apply). Level other: value-level clauses are complete per instantiation; ReactiveMut (query-level wrappers) and ReactCommands::insert\'s command pair are not discharged (CBMC cost).',
         note=ENVNOTE + '; component/resource instantiated at a u32 newtype',
         explanation='accessor clauses complete@shape (Kani, loop-free, full value domain); dispatch of the trigger bounded (Kani)'),
     'C18': dict(category='other', design_ref='DESIGN.md 5/C18',
